@@ -233,3 +233,18 @@ def warmup_numba():
         for fm in ("nikuradse", "colebrook", "swamee-jain"):
             pp.pipeflow(net, use_numba=True, friction_model=fm, mode="sequential" if fluid == "water" else "hydraulics")
     return True
+
+
+def internal_nodes(net, pos, ns):
+    """Pressures / temperatures of the internal section nodes of the pipe at table position pos, read from the
+    solver's node table (internal nodes are laid out per pipe in table order, sections-1 nodes each)."""
+    if ns <= 1:
+        return np.array([]), np.array([])
+    from pandapipes.idx_node import PINIT, TINIT
+    f, t = net["_lookups"]["node_from_to"]["pipe_nodes"]
+    nint = net.pipe.sections.values.astype(int) - 1
+    off = f + int(np.sum(nint[:pos]))
+    rows = np.arange(off, off + ns - 1)
+    assert rows[-1] < t
+    npit = net["_pit"]["node"]
+    return npit[rows, PINIT].copy(), npit[rows, TINIT].copy()
